@@ -154,7 +154,7 @@ class Prop:
               "(Python also accepts other hashable values); opts_ok excludes a non-injective key_map, entry keys equal to a short name (D51) "
               "and values not listed (save raises KeyError) -- outside opts_ok the correspondence still compares model and implementation "
               "(CSaveRaw cases) but no theorem applies; files of other generator versions are covered by the guide's literal documents and "
-              "the FOREIGN cases only.  Finding D92 pending fix (plain Tree cannot read its own mapper-less str entries with a data_id)."),
+              "the FOREIGN cases only."),
         technique="Coq proof about an executable Gallina model + differential correspondence check (vm_compute) + Python oracle",
         design_ref="DESIGN.md section 6 (C12)",
     )
@@ -374,10 +374,7 @@ class Prop:
         ms = desc.get("mapper", "cb")
         finding = None
         needs_mapper = ms == "none" and any(isinstance(e[1], dict) for e in doc["nodes"]) and not desc.get("typed")
-        if t2 is None and needs_mapper and obs[1] == 5:
-            # finding D92 (fixes/D92.diff): a plain Tree cannot read its own mapper-less {"str", "data_id"} entries
-            fail, finding = "D92: a plain Tree cannot load a document of the layout with a str entry that has a data_id, without a mapper", "D92"
-        elif t2 is None:
+        if t2 is None:
             fail = f"reader: refuses a document of the documented layout (error class {obs[1]}): {text[:500]}"
         else:
             d40 = S.in_d40_region(tree._root)
